@@ -108,3 +108,15 @@ func (s *HASyncer) VerifHandleSessionStream(w http.ResponseWriter, r *http.Reque
 // VerifPerformFullSync / VerifHandleSSEData expose the standby's two message-layer entry points.
 func (s *HASyncer) VerifPerformFullSync() error          { return s.performFullSync() }
 func (s *HASyncer) VerifHandleSSEData(data []byte) error { return s.handleSSEData(data) }
+
+// VerifStartBroadcastLoop starts the active node's real broadcastLoop without the HTTP listener
+// (the harness serves the real handlers from an httptest server); Stop() ends it.
+func (s *HASyncer) VerifStartBroadcastLoop() {
+	s.wg.Add(1)
+	go s.broadcastLoop()
+}
+
+// VerifSetBackoff shortens the standby's reconnect backoff bounds (call before Start).
+func (s *HASyncer) VerifSetBackoff(min, max time.Duration) {
+	s.backoff, s.backoffMin, s.backoffMax = min, min, max
+}
